@@ -11,6 +11,11 @@ for g in ('options', 'faults', 'dispatch', 'decide', 'decide_nl'):
     except Exception as e:
         print('translate %s: %s' % (g, e)); rc = 1
 try:
+    import py2lean_start
+    py2lean_start.gen_decide_start()
+except Exception as e:
+    print('translate decide_start: %s' % e); rc = 1
+try:
     import cwrap2lean
     cwrap2lean.gen_blas_driver(cwrap2lean.gen_blas_safety())
 except Exception as e:
